@@ -171,14 +171,23 @@ func c17Eval(in []int64) []int64 {
 				return []int64{-8}
 			}
 			time.Sleep(5 * time.Millisecond)
-		case 2: // lose the connection abruptly
+		case 2, 6, 7: // lose the connection: abruptly (2), or the server ends it with a close frame 1000 (6) / 1001 (7)
 			srv.mu.Lock()
 			c := srv.conn
 			srv.conn = nil
 			srv.mu.Unlock()
 			if c != nil && cl.c.IsConnected() {
-				if tc, ok := c.UnderlyingConn().(*net.TCPConn); ok {
-					_ = tc.SetLinger(0)
+				if l == 2 {
+					if tc, ok := c.UnderlyingConn().(*net.TCPConn); ok {
+						_ = tc.SetLinger(0)
+					}
+				} else {
+					code := websocket.CloseNormalClosure
+					if l == 7 {
+						code = websocket.CloseGoingAway
+					}
+					_ = c.WriteControl(websocket.CloseMessage, websocket.FormatCloseMessage(code, ""), time.Now().Add(time.Second))
+					time.Sleep(5 * time.Millisecond)
 				}
 				_ = c.Close()
 				// the client notices, waits its back-off and dials: the dial is parked
@@ -236,7 +245,8 @@ func c17Eval(in []int64) []int64 {
 	return out
 }
 
-// real-time keep-alive scenarios: 0 dead peer (stops answering pings), 1 healthy idle, 2 server-side: silent client, 3 server-side: pinging client
+// real-time keep-alive scenarios: 0 dead peer (stops answering pings), 1 healthy idle, 2 server-side: silent client, 3 server-side: pinging client,
+// 4 server with its own pings: client never answers, 5 server with its own pings: client answers
 func c17KeepAlive(kind int) (string, string) {
 	switch kind {
 	case 0, 1:
@@ -302,6 +312,67 @@ func c17KeepAlive(kind int) (string, string) {
 		}
 		if !cl.c.IsConnected() {
 			return "C17-no-reconnect-after-dead-peer", "not reconnected 2 s after the dead peer was detected"
+		}
+		return "", ""
+	case 4, 5:
+		// server that sends pings itself (PingPeriod 100ms, PongWait 400ms) and keeps the default PingWait (1 min):
+		// 4: a client that stops reading (never answers a ping) is dropped by PongWait; 5: one that answers is kept
+		s := ws.NewServer()
+		tc := ws.NewServerTimeoutConfig()
+		tc.PingPeriod = 100 * time.Millisecond
+		tc.PongWait = 400 * time.Millisecond
+		s.SetTimeoutConfig(tc)
+		var mu sync.Mutex
+		gone := 0
+		s.SetDisconnectedClientHandler(func(c ws.Channel) { mu.Lock(); gone++; mu.Unlock() })
+		s.SetMessageHandler(func(c ws.Channel, d []byte) error { return nil })
+		go s.Start(0, "/ws/{id}")
+		for i := 0; i < 4000 && s.Addr() == nil; i++ {
+			time.Sleep(250 * time.Microsecond)
+		}
+		defer s.Stop()
+		d := websocket.Dialer{Subprotocols: []string{"ocpp1.6"}}
+		c, _, err := d.Dial(fmt.Sprintf("ws://127.0.0.1:%d/ws/k1", s.Addr().Port), nil)
+		if err != nil {
+			return "C17-setup", err.Error()
+		}
+		defer c.Close()
+		if kind == 5 {
+			go func() {
+				for {
+					if _, _, err := c.ReadMessage(); err != nil { // gorilla answers pings while reading
+						return
+					}
+				}
+			}()
+			time.Sleep(1300 * time.Millisecond)
+			mu.Lock()
+			g := gone
+			mu.Unlock()
+			if g != 0 {
+				return "C17-healthy-connection-dropped", "server with own pings dropped a client that answers every ping"
+			}
+			return "", ""
+		}
+		t0 := time.Now()
+		for time.Since(t0) < 3*time.Second {
+			mu.Lock()
+			g := gone
+			mu.Unlock()
+			if g > 0 {
+				break
+			}
+			time.Sleep(5 * time.Millisecond)
+		}
+		el := time.Since(t0)
+		mu.Lock()
+		g := gone
+		mu.Unlock()
+		if g != 1 {
+			return "C17-dead-peer-not-detected", fmt.Sprintf("client never answers the server's pings: %d disconnected callbacks after %v (PongWait 400ms)", g, el)
+		}
+		if el > 1200*time.Millisecond {
+			return "C17-dead-peer-detected-late", fmt.Sprintf("detected after %v with PongWait 400ms", el)
 		}
 		return "", ""
 	default:
@@ -377,12 +448,15 @@ func c17Monitor(in []int64) func(obs []int64) (string, string) {
 func c17Gen(cfg config, emit func(Case)) {
 	rng := rand.New(rand.NewSource(cfg.seed + 17))
 	corpus := [][]int64{
-		{30, 0, 2, 1, 2, 4},                   // loss, first retry succeeds
-		{30, 0, 2, 1, 2, 3, 3, 3, 3, 4},       // four failed retries, then success
-		{30, 0, 2, 1, 5, 1, 2, 4},             // stopped and started again earlier, then a loss (F7)
-		{30, 0, 2, 1, 2, 3, 5, 3},             // stop while a dial is in flight; it fails
-		{30, 0, 2, 1, 2, 5, 4},                // stop while a dial is in flight; it succeeds (F26)
+		{30, 0, 2, 1, 2, 4},             // loss, first retry succeeds
+		{30, 0, 2, 1, 2, 3, 3, 3, 3, 4}, // four failed retries, then success
+		{30, 0, 2, 1, 5, 1, 2, 4},       // stopped and started again earlier, then a loss (F7)
+		{30, 0, 2, 1, 2, 3, 5, 3},       // stop while a dial is in flight; it fails
+		{30, 0, 2, 1, 2, 5, 4},          // stop while a dial is in flight; it succeeds (F26)
 		{30, 0, 2, 1, 2, 4, 2, 3, 4, 5},
+		{30, 0, 2, 1, 6, 4},    // the server ends the connection with a normal-closure frame: the client reconnects
+		{30, 0, 2, 1, 7, 3, 4}, // ... with a going-away frame
+		{30, 0, 2, 1, 6, 4, 5, 1, 6, 4},
 	}
 	for _, c := range corpus {
 		emit(Case{Class: "corpus", Input: c, Comment: "corpus", Check: c17Monitor(c)})
@@ -396,7 +470,7 @@ func c17Gen(cfg config, emit func(Case)) {
 		k := 2 + rng.Intn(7)
 		stopped := false
 		for j := 0; j < k; j++ {
-			l := []int64{2, 3, 3, 4, 4, 5, 1}[rng.Intn(7)]
+			l := []int64{2, 3, 3, 4, 4, 5, 1, 6, 7}[rng.Intn(9)]
 			if l == 1 && !stopped {
 				l = 2 // Start is only issued after a Stop
 			}
@@ -413,7 +487,7 @@ func c17Gen(cfg config, emit func(Case)) {
 }
 
 func c17kGen(cfg config, emit func(Case)) {
-	for kind := 0; kind < 4; kind++ {
+	for kind := 0; kind < 6; kind++ {
 		k, d := c17KeepAlive(kind)
 		emit(Case{Class: fmt.Sprintf("keepalive%d", kind), Input: []int64{30, 0, 2}, Obs: []int64{-2, 0, 0}, Comment: fmt.Sprintf("keep-alive scenario %d", kind),
 			Check: func([]int64) (string, string) { return k, d }})
